@@ -59,6 +59,11 @@ type lockWalker struct {
 	// markerOf, when set, turns selected AST nodes into pseudo events (acq=true, cls>=100) so that a fact can say
 	// "this access happens inside that critical section"
 	markerOf func(ast.Node) (int, bool)
+	// resolve, when set, replaces calleeKey: it maps a call to the listed functions it may reach (several when the
+	// receiver is an interface), by the printed callee expression
+	resolve func(*ast.CallExpr) ([]string, bool)
+	// lockName, when set, replaces the default "X.<field>.Lock()" recognition of the mutex operand
+	lockName func(ast.Expr) (string, bool)
 }
 
 func dedupe(ps []lockPath) []lockPath {
@@ -90,6 +95,14 @@ func (w *lockWalker) lockOp(c *ast.CallExpr) (lockEv, bool) {
 	case "Unlock", "RUnlock":
 		acq = false
 	default:
+		return lockEv{}, false
+	}
+	if w.lockName != nil {
+		if nm, ok := w.lockName(sel.X); ok {
+			if cls, ok := w.classes[nm]; ok {
+				return lockEv{acq, cls}, true
+			}
+		}
 		return lockEv{}, false
 	}
 	inner, ok := sel.X.(*ast.SelectorExpr)
@@ -174,6 +187,29 @@ func (w *lockWalker) call(c *ast.CallExpr, in []lockPath) []lockPath {
 			out = append(out, p.with(e))
 		}
 		return out
+	}
+	if w.resolve != nil {
+		keys, ok := w.resolve(c)
+		if !ok {
+			return in
+		}
+		var progs [][]lockEv
+		for _, k := range keys {
+			progs = append(progs, w.fnPrograms(k)...)
+		}
+		var out []lockPath
+		for _, p := range in {
+			if p.state != 0 {
+				out = append(out, p)
+				continue
+			}
+			for _, pr := range progs {
+				q := p
+				q.evs = append(append([]lockEv(nil), p.evs...), pr...)
+				out = append(out, q)
+			}
+		}
+		return dedupe(out)
 	}
 	if k, ok := w.calleeKey(c); ok {
 		progs := w.fnPrograms(k)
